@@ -6,11 +6,11 @@
 # Seeds of one property run one after the other (they share the per-property dev binary), properties run 4 at a time.
 cd "$(dirname "$0")/.."
 export GOFLAGS=-mod=mod GOPROXY=off GOSUMDB=off GOTOOLCHAIN=local
-props="$*"; [ -z "$props" ] && props=$(ls seeded | sed 's/-.*//' | sort -u)
+props="$*"; [ -z "$props" ] && props=$(ls -d seeded/*/ | xargs -n1 basename | sed 's/-.*//' | sort -u)
 mkdir -p out/seedreg
 one_prop() {
   p="$1"
-  for d in seeded/*; do
+  for d in seeded/*/; do d=${d%/}
     # a seed caught by ANOTHER property's check names that property in meta.json (check_property); it runs with that property's seeds
     cp=$(python3 -c "import json,sys;print(json.load(open('$d/meta.json')).get('check_property','$(basename $d | sed 's/-.*//')'))")
     [ "$cp" = "$p" ] || continue
